@@ -27,7 +27,7 @@ var R = hx.NewRecorder("C06", "cases = (server mode gm|auto|tls, client kind gm|
 	"non-trivial = handshake completed with data moved each way, or a forbidden combination that reached the peer's first flight; distinct by hash of the case description")
 
 func TestMain(m *testing.M) {
-	R.Require("readbuf<record", "mode:gm", "mode:auto", "mode:tls", "suite:e013", "suite:e053", "tls10", "tls11", "tls12", "auth:0", "auth:1", "auth:2", "auth:3", "auth:4",
+	R.Require("ref_peer", "readbuf<record", "mode:gm", "mode:auto", "mode:tls", "suite:e013", "suite:e053", "tls10", "tls11", "tls12", "auth:0", "auth:1", "auth:2", "auth:3", "auth:4",
 		"clientcert:untrusted", "clientcert:callback_untrusted", "certsource:callbacks", "stdlib_client", "stdlib_server", "passive_decoder", "payload>16KiB", "fragment==1", "must_fail", "must_succeed")
 	hx.Main(m, R)
 }
@@ -850,5 +850,64 @@ func TestC06_Handshakes(t *testing.T) {
 		}
 		R.Case(len(csend) > 0 && len(ssend) > 0, hx.HashKey(c.String()), cl...)
 		R.Sample("session", map[string]interface{}{"mode": c.ServerMode, "client": c.ClientKind, "suite": fmt.Sprintf("%x", cs.CipherSuite), "version": fmt.Sprintf("%x", cs.Version), "auth": int(c.ClientAuth), "clientcert": c.ClientCert, "c2s": c.CSend, "s2c": c.SSend})
+	})
+}
+
+// gmtls against the independent GM/T 0024 endpoints of ref/rgmssl (both roles, both ECC suites).
+func TestC06_ReferencePeer(t *testing.T) {
+	p := tlsx.GetPKI()
+	n := 0
+	hx.Check(t, hx.N(250, 4000), func(t *rapid.T) {
+		n++
+		suite := rapid.SampledFrom([]uint16{tlsx.GMECCSM4CBCSM3, tlsx.GMECCSM4GCMSM3}).Draw(t, "suite")
+		gmIsClient := rapid.Bool().Draw(t, "gmIsClient")
+		a := payload(rapid.IntRange(0, 20000).Draw(t, "gmSends"), 'g')
+		b := payload(rapid.IntRange(0, 20000).Draw(t, "refSends"), 'r')
+		auth := gmtls.ClientAuthType(gen.Uniform(t, "auth", 5))
+		withCert := rapid.Bool().Draw(t, "withcert")
+		var r *tlsx.ScriptedResult
+		if gmIsClient {
+			cc := tlsx.GMClient(p, fmt.Sprint("rc", n))
+			cc.CipherSuites = []uint16{suite}
+			if withCert {
+				cc.Certificates = []gmtls.Certificate{p.Client.TLS}
+			}
+			so := rgmssl.ServerOpts{ID: p.ServerIdentity(), Echo: b, RequestCert: auth != gmtls.NoClientCert}
+			if so.RequestCert {
+				so.CAs = p.RootsSM2.Subjects()
+			}
+			r = tlsx.RunAgainstScriptedServer(cc, so, nil, fmt.Sprint("rs", n), a)
+		} else {
+			sc := tlsx.GMServer(p, fmt.Sprint("rs", n))
+			sc.CipherSuites = []uint16{suite}
+			sc.ClientAuth, sc.ClientCAs = auth, p.RootsSM2
+			co := rgmssl.ClientOpts{Suites: []uint16{suite}, Send: b}
+			if withCert {
+				co.Cert, co.CertD = p.Client.DER, p.Client.SM2D
+			}
+			r = tlsx.RunAgainstScriptedClient(sc, co, nil, fmt.Sprint("rc", n), a)
+		}
+		desc := fmt.Sprintf("suite=%x gmIsClient=%v auth=%d withCert=%v |gm sends %d, ref sends %d| gm: hs=%v io=%v recv=%d | ref: err=%v recv=%d log=%v", suite, gmIsClient, auth, withCert, len(a), len(b), r.GM.HSErr, r.GM.IOErr, len(r.GM.Received), r.PeerErr, len(r.Peer.AppIn), r.Peer.Log)
+		if r.GM.Panic != nil {
+			t.Fatalf("gmtls panicked against the reference peer: %s\n%s", r.GM.Panic, desc)
+		}
+		if r.PeerPanic != nil {
+			t.Fatalf("harness: reference peer panicked: %s", r.PeerPanic)
+		}
+		mustFail := !gmIsClient && !withCert && (auth == gmtls.RequireAnyClientCert || auth == gmtls.RequireAndVerifyClientCert)
+		if mustFail {
+			if r.GM.HSErr == nil {
+				t.Fatalf("server completed without the required client certificate\n%s", desc)
+			}
+			R.Case(true, hx.HashKey("refpeer", desc), "ref_peer", "must_fail")
+			return
+		}
+		if r.GM.HSErr != nil || r.PeerErr != nil {
+			t.Fatalf("gmtls and the independent GM/T 0024 implementation do not interoperate\n%s", desc)
+		}
+		if !bytes.Equal(r.GM.Received, b) || !bytes.Equal(r.Peer.AppIn, a) {
+			t.Fatalf("data differs between gmtls and the reference peer\n%s", desc)
+		}
+		R.Case(len(a) > 0 && len(b) > 0, hx.HashKey("refpeer", suite, gmIsClient, auth, withCert, len(a), len(b)), "ref_peer", fmt.Sprintf("suite:%x", suite))
 	})
 }
